@@ -171,6 +171,11 @@ impl Walker {
     ))
   }
 
+  #[cfg(imdl_verif)]
+  pub(crate) fn verif_pattern_filter(&self, relative: &Path) -> bool {
+    self.pattern_filter(relative)
+  }
+
   fn pattern_filter(&self, relative: &Path) -> bool {
     for Pattern { glob, include } in self.patterns.iter().rev() {
       if glob.is_match(relative) {
